@@ -314,6 +314,8 @@ struct SshHandler {
     accept_password: Option<String>,
     /// reject `password` authentication but offer (and accept) keyboard-interactive
     kbdint_only: bool,
+    /// instead of answering the subsystem request: close the channel (Eof/Clean) or drop the connection (Abort)
+    setup_fault: Option<CloseKind>,
 }
 
 #[async_trait::async_trait]
@@ -347,6 +349,14 @@ impl russh::server::Handler for SshHandler {
     }
 
     async fn subsystem_request(self, channel: ChannelId, name: &str, mut session: SshSession) -> Result<(Self, SshSession), Self::Error> {
+        match self.setup_fault {
+            Some(CloseKind::Abort) => return Err(anyhow::anyhow!("injected: connection dropped before the subsystem reply")),
+            Some(_) => {
+                session.close(channel);
+                return Ok((self, session));
+            }
+            None => {}
+        }
         if name == "netconf" {
             session.channel_success(channel);
             self.shared.lock().unwrap().subsystem = true;
@@ -393,6 +403,10 @@ impl SshServer {
     }
 
     pub fn accept_with(&self, timeout: Duration, accept_password: Option<String>, kbdint_only: bool) -> Option<SshPeer> {
+        self.accept_opts(timeout, accept_password, kbdint_only, None)
+    }
+
+    pub fn accept_opts(&self, timeout: Duration, accept_password: Option<String>, kbdint_only: bool, setup_fault: Option<CloseKind>) -> Option<SshPeer> {
         let shared: Arc<Mutex<SshShared>> = Arc::default();
         let (listener, config, shared2) = (self.listener.clone(), self.config.clone(), shared.clone());
         let sock = self.rt.block_on(async move { tokio::time::timeout(timeout, listener.accept()).await.ok()?.ok() })?;
@@ -401,7 +415,7 @@ impl SshServer {
         let sock = self.rt.block_on(async { tokio::net::TcpStream::from_std(raw).ok() })?;
         _ = sock.set_nodelay(true);
         let task = self.rt.spawn(async move {
-            if let Ok(running) = russh::server::run_stream(config, sock, SshHandler { shared: shared2, accept_password, kbdint_only }).await {
+            if let Ok(running) = russh::server::run_stream(config, sock, SshHandler { shared: shared2, accept_password, kbdint_only, setup_fault }).await {
                 _ = running.await;
             }
         });
